@@ -266,6 +266,15 @@ func genC10(r *simrt.Rand, tier string, idx uint64) *Plan {
 			p.Clients = append(p.Clients, ClientPlan{Conn: 0, Ops: []Op{{Kind: "spin", N: r.Intn(40)}, {Kind: "sleep", N: delay}, {Kind: "sopen", Stream: k}, {Kind: "swrite", Stream: k, N: 1}, {Kind: "sread", Stream: k, N: 2}}})
 		}
 	}
+	if f.Kind != "closestream" && r.Chance(1, 2) {
+		// a short-lived sibling: one goroutine closes it while another is writing to it, so a stream
+		// message may reach the server after the close request; whatever that leaves behind must not
+		// keep the other handlers from being released when the connection ends
+		k := len(p.Streams)
+		p.Streams = append(p.Streams, StreamPlan{Conn: 0, Echo: true, Sizes: []int{7, 7, 7, 7}})
+		p.Clients = append(p.Clients, ClientPlan{Conn: 0, Ops: []Op{{Kind: "sopen", Stream: k}, {Kind: "swrite", Stream: k, N: 1}, {Kind: "sread", Stream: k, N: 1}, {Kind: "spin", N: r.Intn(4)}, {Kind: "sclose", Stream: k}}})
+		p.Clients = append(p.Clients, ClientPlan{Conn: 0, Ops: []Op{{Kind: "await", Stream: k, Shape: 1, N: 1}, {Kind: "spin", N: r.Intn(4)}, {Kind: "swrite", Stream: k, N: 1 + r.Intn(2)}}})
+	}
 	p.Faults = []Fault{f} // informational (AtOp==0 and kind!=cut@connect: nothing is armed from here)
 	p.Faults[0].AtOp = -1
 	p.Params = map[string]int{"settle": 1} // a second of quiet before the world is torn down
